@@ -3,6 +3,8 @@
 Decided (structural necessary conditions in cp_apr.py; thin by nature, see "Not decided"):
   PROJ    in the row line search every candidate model_new = <step> is projected onto the non-negative orthant
           (model_new *= model_new > 0, or np.maximum(., 0)) before it is evaluated or returned
+  PHI     the multiplicative-update matrix of the sparse branch is written for EVERY index of the mode (full-column stores of an
+          aggregation sized by the mode's extent), so empty slices get 0 and not the buffer's initial fill
   OBJ     in all three solvers the reported objective is tt_loglikelihood(data, M) computed AFTER the final
           M.normalize(sort=True, normtype=1), M is not written afterwards, and M is the model returned
   TRACE   every per-iteration diagnostic array is written at [iteration] and reported as [: iteration + 1]
@@ -202,11 +204,54 @@ def start(prog: Program, res: Result) -> None:
         res.bad("START", fi.short, desc, prog.loc(fi), f"returns init: {ok_ret}; every solver receives init: {ok_pass}")
 
 
+def phi_cover(prog: Program, res: Result) -> None:
+    """calculate_phi: the update matrix has one row per index of the mode, all of them written (empty slices included)."""
+    fi = prog.func("cp_apr.calculate_phi")
+    desc = "every row of the multiplicative-update matrix is written (one aggregated value per index of the mode, empty slices included)"
+    alloc = [a for a in ast.walk(fi.node) if isinstance(a, ast.Assign) and isinstance(a.targets[0], ast.Name) and a.targets[0].id == "Phi"
+             and any(isinstance(x, ast.Call) and (dotted(x.func) or "").split(".")[-1] in ("ones", "zeros", "empty", "full") for x in ast.walk(a.value))]
+    stores = [a for a in ast.walk(fi.node) if isinstance(a, ast.Assign) and isinstance(a.targets[0], ast.Subscript) and isinstance(a.targets[0].value, ast.Name)
+              and a.targets[0].value.id == "Phi"]
+    if not alloc or not stores:
+        res.undecided("PHI", fi.short, desc, prog.loc(fi), "allocation / column stores of Phi not found")
+        return
+    ext = None
+    for x in ast.walk(alloc[0].value):
+        if isinstance(x, ast.Call) and (dotted(x.func) or "").split(".")[-1] in ("ones", "zeros", "empty", "full") and x.args and isinstance(x.args[0], ast.Tuple):
+            ext = ast.unparse(x.args[0].elts[0])
+    problems = []
+    for st in stores:
+        sl = st.targets[0].slice
+        rows = sl.elts[0] if isinstance(sl, ast.Tuple) else sl
+        if not (isinstance(rows, ast.Slice) and rows.lower is None and rows.upper is None):
+            problems.append(f"`{ast.unparse(st.targets[0])}` writes only part of the rows: the remaining rows keep the initial fill of the buffer")
+        # the value must have as many rows as the buffer: accumarray(..., size=<extent>)
+        v = st.value
+        if isinstance(v, ast.Name):
+            d = [a for a in ast.walk(fi.node) if isinstance(a, ast.Assign) and isinstance(a.targets[0], ast.Name) and a.targets[0].id == v.id]
+            v = d[0].value if d else v
+        if isinstance(v, ast.Call):
+            fn = (dotted(v.func) or "").split(".")[-1]
+            if fn == "accumarray":
+                size = kwarg(v, "size")
+                if size is None or ast.unparse(size) != ext:
+                    problems.append(f"aggregation size is {ast.unparse(size) if size is not None else 'not given'}, the buffer has {ext} rows")
+            elif fn in ("bincount",):
+                ml = kwarg(v, "minlength")
+                if ml is None or ast.unparse(ml) != ext:
+                    problems.append("np.bincount returns only max(index)+1 rows: trailing empty slices are not written")
+    if problems:
+        res.bad("PHI", fi.short, desc, prog.loc(fi, stores[0]), "; ".join(sorted(set(problems))))
+    else:
+        res.ok("PHI", fi.short, desc, prog.loc(fi, stores[0]), f"buffer rows {ext}; {len(stores)} full-column store(s)")
+
+
 def check(prog: Program, res: Result, tier: str) -> None:
     res.explanation = __doc__.split("\n\n", 1)[1]
     res.assumptions = ["ktensor.normalize only re-parameterises (C08); tt_loglikelihood evaluates the Poisson log-likelihood of its arguments"]
-    res.floors = {"PROJ": 2, "OBJ": 3, "TRACE": 12, "KKT": 3, "LOOP": 5, "START": 4}
+    res.floors = {"PROJ": 2, "OBJ": 3, "TRACE": 12, "KKT": 3, "LOOP": 5, "START": 4, "PHI": 1}
     proj(prog, res)
+    phi_cover(prog, res)
     obj_order(prog, res)
     trace(prog, res)
     kkt(prog, res)
